@@ -331,6 +331,8 @@ pub fn generate(tier: Tier, emit: Emit) {
         }
     }
     gen_exits(tier, emit);
+    gen_exits_nested(tier, emit);
+    gen_generator_after_error(tier, emit);
     gen_enclosing(tier, emit);
     gen_no_error_paths(tier, emit);
 }
@@ -414,6 +416,116 @@ fn gen_exits(_tier: Tier, emit: Emit) {
     }
 }
 
+/// loops with early exits (directly, or through an inner try) nested inside the try / catch /
+/// finally block of an outer try, followed by a later error in the same block: the exit must
+/// clear exactly the catch points of the try blocks it leaves
+fn gen_exits_nested(_tier: Tier, emit: Emit) {
+    let exits: Vec<(&'static str, X)> = vec![("break", x(E::Break(None))), ("continue", x(E::Continue)), ("return", ret(Some(s("ret"))))];
+    for (_en, exit) in &exits {
+        let step = |tag: &str| -> Vec<X> { vec![print(tuple(vec![s(tag), id("i")])), if_(cmp(id("i"), CmpOp::Eq, int(0)), vec![exit.clone()], None), print(tuple(vec![s("rest"), id("i")]))] };
+        let for_ = |body: Vec<X>| x(E::For(vec![Pat::Id("i".into(), None)], x(E::Range(Some(int(0)), Some(int(2)), false)), blk(body)));
+        let inner_catch = |n: &str| vec![catch_arm(n, None, vec![print(interp(vec![lit("inner catch "), hole(id(n))]))])];
+        let structures: Vec<(&'static str, Vec<X>)> = vec![
+            ("loop", vec![for_(step("loop"))]),
+            ("try-loop", vec![x(E::Try(blk(vec![for_(step("try-loop"))]), inner_catch("e2"), None))]),
+            ("loop-try", vec![for_(vec![x(E::Try(blk(step("loop-try")), inner_catch("e2"), None)), print(s("after inner try"))])]),
+            ("loop-try-finally", vec![for_(vec![x(E::Try(blk(step("loop-try-finally")), inner_catch("e2"), Some(blk(vec![print(s("inner finally"))]))))])]),
+            ("try-loop-try", vec![x(E::Try(blk(vec![for_(vec![x(E::Try(blk(step("try-loop-try")), inner_catch("e3"), None))])]), inner_catch("e2"), None))]),
+            ("loop-try-throwing", vec![for_(vec![x(E::Try(blk(vec![print(tuple(vec![s("lt"), id("i")])), throw(s("in loop"))]), vec![catch_arm("e2", None, vec![print(s("inner catch")), if_(cmp(id("i"), CmpOp::Eq, int(0)), vec![exit.clone()], None)])], None))])]),
+        ];
+        for (_sn, st) in &structures {
+            for place in ["try", "catch", "finally"] {
+                for with_finally in [false, true] {
+                    if place == "finally" && !with_finally {
+                        continue;
+                    }
+                    for later_throw in [false, true] {
+                        if place == "finally" && later_throw {
+                            continue; // a throwing finally block is not specified
+                        }
+                        let mut placed = st.clone();
+                        placed.push(print(s("after structure")));
+                        if later_throw {
+                            placed.push(throw(s("second")));
+                        }
+                        let mut try_body = vec![print(s("try"))];
+                        let mut catch_body = vec![print(interp(vec![lit("catch "), hole(id("e"))]))];
+                        let mut fin_body = vec![print(s("finally"))];
+                        match place {
+                            "try" => try_body.extend(placed),
+                            "catch" => {
+                                try_body.push(throw(s("first")));
+                                catch_body.extend(placed);
+                            }
+                            _ => fin_body.extend(placed),
+                        }
+                        let t = x(E::Try(blk(try_body), vec![catch_arm("e", None, catch_body)], if with_finally { Some(blk(fin_body)) } else { None }));
+                        let fbody = vec![t, print(s("after outer try")), throw(s("third"))];
+                        let p = vec![
+                            assign("hf", func(&[], fbody)),
+                            x(E::Try(
+                                blk(vec![print(tuple(vec![s("result"), callf("hf", vec![])]))]),
+                                vec![catch_arm("oe", None, vec![print(interp(vec![lit("escaped "), hole(id("oe"))]))])],
+                                None,
+                            )),
+                            print(s("end")),
+                        ];
+                        let mut shape = vec![];
+                        if with_finally && place == "catch" && later_throw {
+                            shape.push("finally-with-nonlocal-exit");
+                        }
+                        emit(Case { family: "exits-nested", prog: p, shape });
+                    }
+                }
+            }
+        }
+    }
+}
+
+/// a generator instance that is kept after an error escaped from its body: the error ended it,
+/// whoever advances it again (next, for, to_tuple; same function or an outer one) finds it finished
+fn gen_generator_after_error(_tier: Tier, emit: Emit) {
+    for f in faults() {
+        let gen_body = vec![x(E::Yield(int(1))), print(s("gen resumed")), as_stmt(&f), print(s("after fault")), x(E::Yield(int(2)))];
+        let gn = x(E::Func(Rc::new(FuncDef { args: vec![], variadic: false, body: blk(gen_body), is_gen: true, out_hint: None, inline: false })));
+        let advance = |n: usize| -> Vec<X> { (0..n).map(|_| print(method(id("g"), "next", vec![]))).collect() };
+        let afters: Vec<(&'static str, Vec<X>)> = vec![
+            ("next", advance(2)),
+            ("for", vec![x(E::For(vec![Pat::Id("v".into(), None)], id("g"), blk(vec![print(tuple(vec![s("for"), id("v")]))])))]),
+            ("to_tuple", vec![print(method(id("g"), "to_tuple", vec![]))]),
+        ];
+        for (_an, after) in &afters {
+            for catch_in in ["same-frame", "outer-function", "for-loop-in-try"] {
+                let mut p = f.defs.clone();
+                p.push(assign("gn", gn.clone()));
+                p.push(assign("g", callf("gn", vec![])));
+                match catch_in {
+                    "same-frame" => {
+                        p.extend(advance(1));
+                        p.push(x(E::Try(blk(advance(1)), vec![catch_arm("e", None, vec![print(s("caught"))])], None)));
+                    }
+                    "outer-function" => {
+                        p.push(assign("adv", func(&[], vec![method(id("g"), "next", vec![])])));
+                        p.push(print(callf("adv", vec![])));
+                        p.push(x(E::Try(blk(vec![print(callf("adv", vec![]))]), vec![catch_arm("e", None, vec![print(s("caught"))])], None)));
+                    }
+                    _ => {
+                        p.push(x(E::Try(
+                            blk(vec![x(E::For(vec![Pat::Id("v".into(), None)], id("g"), blk(vec![print(tuple(vec![s("first for"), id("v")]))])))]),
+                            vec![catch_arm("e", None, vec![print(s("caught"))])],
+                            None,
+                        )));
+                    }
+                }
+                p.push(print(s("advancing again")));
+                p.extend(after.clone());
+                p.push(print(s("end")));
+                emit(Case { family: "generator-after-error", prog: p, shape: vec![] });
+            }
+        }
+    }
+}
+
 /// errors caught inside a callee while the caller has an open string / list / call construction
 fn gen_enclosing(_tier: Tier, emit: Emit) {
     let inner_constructions: Vec<(&'static str, X)> = vec![
@@ -423,6 +535,12 @@ fn gen_enclosing(_tier: Tier, emit: Emit) {
         ("in-map", map(vec![("a", int(1)), ("b", throw(s("x")))])),
         ("in-call", callf("three", vec![int(1), throw(s("x")), int(3)])),
         ("plain", throw(s("x"))),
+        // the error leaves a nested run driven by native code before it reaches the callee's try
+        ("via-each", method(method(list(vec![int(1), int(2)]), "each", vec![func_inline(&["v"], throw(s("x")))]), "to_list", vec![])),
+        ("via-fold", method(tuple(vec![int(1), int(2)]), "fold", vec![int(0), func_inline(&["a", "v"], throw(s("x")))])),
+        ("via-keep-in-string", interp(vec![lit("k"), hole(method(method(list(vec![int(1)]), "keep", vec![func_inline(&["v"], throw(s("x")))]), "to_tuple", vec![]))])),
+        ("via-display-in-list", list(vec![int(1), interp(vec![hole(list(vec![meta_map(vec![(MK::Meta("display".into(), None), func_inline(&[], throw(s("x"))))])]))])])),
+        ("via-sort-compare", tuple(vec![int(1), method(list(vec![id("cmpo"), id("cmpo")]), "sort", vec![])])),
     ];
     for (iname, inner) in &inner_constructions {
         let g = func(
@@ -441,6 +559,7 @@ fn gen_enclosing(_tier: Tier, emit: Emit) {
             let _ = (iname, oname);
             let p = vec![
                 assign("three", func_inline(&["a", "b", "c"], tuple(vec![id("a"), id("b"), id("c")]))),
+                assign("cmpo", meta_map(vec![(MK::Meta("<".into(), None), func_inline(&["o"], throw(s("x"))))])),
                 assign("g", g.clone()),
                 print(outer.clone()),
                 // and the same construction once more (a leaked builder corrupts the next use)
@@ -451,6 +570,7 @@ fn gen_enclosing(_tier: Tier, emit: Emit) {
             // same-frame variant: try directly around the inner construction, then build again
             let p = vec![
                 assign("three", func_inline(&["a", "b", "c"], tuple(vec![id("a"), id("b"), id("c")]))),
+                assign("cmpo", meta_map(vec![(MK::Meta("<".into(), None), func_inline(&["o"], throw(s("x"))))])),
                 x(E::Try(blk(vec![print(inner.clone())]), vec![catch_arm("e", None, vec![print(s("c"))])], None)),
                 assign("g", func_inline(&[], s("ok"))),
                 print(outer),
